@@ -7,21 +7,21 @@ package props
 var c07KeyJSON = map[string]string{
 	"rsa2048": `{"d":"OBPCY7RbhQ5aq05bVEYw7k-4rcMfMuDOK0uDXizLVvv9rgIzK6G2bL9tgqPflmN59h48psHGCWTWp92JZZEXRAIdGVDoMEEf2205lH4AQoBRtV8KxoCVNc9acW9m6p15eVgXqXjYWI8zgIeZyajFPpVsEZRQ07HqtKuJzDj9UK6whIqQp7Fd8WuUtYXmngL5IbWp-B5BPUgUZcnmknvl1EDyOLwGi49udNqDwFZrOusg-jI0ZvuSi81bJPPBOZhm_UGVMAoh5GJ5Ys3fYfaEzR7-PA-ZbxrXghOSNZMy4Lmr0aBfiJX9DGhgbEOrXHPTE8pn6cG5fdrpZdefs46vHQ","dp":"I-YrYdt00TVvKvbD_j25mW9MqQk9gRFTcitIAiIJtap1nVy_qDCsjbtlEGYq2fmnY5drtpitCWOKTqlCNFC6Ygq63tewEj3wAn0t_OsQ8Yu6REAnseiOttvD5ac07JI21c6km1VkBF72x7KWp7VnRfgd4a8IpJkNvGMNSHP4XI0","dq":"m_YjXPCItgWfJnL-cfZM1M3_EGlXBryIUK-PqjHw0rtSEMOHCYvM-oWdOPWIKc8S00Z9GKeRj3Xbs2WFEVAJV-5QLQLipvRAHUVxzxiIrY38DvLcSDIehh7r2D8WXcm-7sIroPl7x1LZ89uhxDSOsHblsYiOUfq5rTHvjmRaRx8","e":"AQAB","kty":"RSA","n":"0BHGoGz6_cBtXRP-78ZVQiww1frw8PD007BEFhcuxH6CcTFs-Yi_aKftIV6pLDw9iKmsRUGnJG9ejUHVZ6aOxxMiEO23Z25BFYnkV5fUwioQOnLvqL1IK1ChpM3fL9HpZuIziGgIQLFYIauJOpsJT1yquEbhJLGrBKft6Jb8w2FpM-LYzZkjgtQj8SqW2iNJ11qZUOpI4P2G9Kno10Ja14eOrkM71Vyu4fCTmroI5BKOKbUF1Fhe52wyEmtMH-4GtNnslVC0tNSZPi5_FgxeUy6pm4KzlOT0xT-ymBTYV_3lv1d2A2xMYCpDjW3HPp2eYsvbjMniyvqFnW_Z-l8yuQ","p":"-UgTv03PoMzahl9XUEfSMPTvklxKtXwUtZckVK8AlrUr4ebbMMdUh9Zpq8j4rib81UYf8_eiv4OLiIhL4erOw1NntkqCJBNfpvSsyPdRApFhs5Ms63JRrs1168uOnTCJW8ZYQxsNcn3ViojFT5WlD-DbblAGm71yH8-nxy5noRs","q":"1a1a328l8P7bC_OAziGXedYo0z7imnWSitAAkOP_9fX_HLA9-pEvPc9v4YgCb9YcLGIyDjUBMu3mvGBwzudel3Z7hmdXEQHc3mIoEOGVvIzjN9FvkrsDw3gOH8XZ9DHW05TJF48VIKo8ElUykU_Y5SByyUTp12LOoT7cLsCRzLs","qi":"TP-YgUfp1z6MLIH8HGTn6G2KWHNUyx9MGib1PT1rINE7p3I3CjR14uvQxOcptC9IIlZdmZkIYWCgRHMTtwu112ohDX_5zHWokawo1kU9zacNyq2SL3wNLMuQMJPRaM5p8BDLuEP88V9FNtpZ27l4EtKECvdpFSshCJbU0Q705NY"}`,
 	"rsa1024": `{"d":"OcoB1W-x5QlyRkvtna3IH3V5VAFie4C9e9APLm5d57ApsCPuYY-CAXKQPaltNRYDEU8OCliVkLU_aByJoVY1Fph0hnt2qLZh2zUpSuakJAQONyYx1Ap-9ygFvJ2Xbtc9pDNYG1g1PV5foBd2wfq27oBW8xqwWIikE6mmpDh9x0k","dp":"TJmtxOv6l4jhVABECq7ZbFuo_KJd2U8fYcr-3uqkGe9G4SFqp0YufmDpYo01Gastdiqh5ce0b8wYzABtI-zrJQ","dq":"kzKRqsY_zjFeRFBQDbvOu4dvRc3aZb2PvyKlLv13kOqNvqYJs10c4yWpq69NQ7X6qemworHXXqFOvv0uwutSlQ","e":"AQAB","kty":"RSA","n":"oMlRbeIPz28N8OrLlBgafQXuhK--aMhVQYqBCEmaXIK8yJnKWWDzSKNji0s6Znp8buwHMC94o9X2jzhkZh2cDKVQYEYqEBhKCDJK3mBwCm1Tgh6bJewi_TpqgNlpXINGtq2pkSQE2ZFaJNSoXlN1SgdGGw90MkBN01fCEDaVzt8","p":"wTWNcJ9e7MrGYX9OScj25fNXwo2HBtFVxp9ImliQrmKDp4bPmdtEaX7osX2RYjkn_DewAECTeAABf6H6YzJO3Q","q":"1QpIasg3BaBNAnfa_iIx3Bn5_eFzKKAjE_hhhSdrSEB8sxPp2Kr2SfBmrKmEy1EYaTllo9zTFIxqyMPp4l1y6w","qi":"TZQBH6sICcO0hjaxIDCKUggiLC1J1GsM4Nz4tZcXaXaA5ldSGvFVDtz9-3M5DOdgjm7SqFFP4J9TYWj_fwm26A"}`,
-	"p256": `{"crv":"P-256","d":"pDwP5X3GKRa2n8hD1Sx9p9Bz65u5URkLeTsDvGegMEQ","kty":"EC","x":"murx86Ceqb0_itQoFbUif8DuiYGjj6Nie0DeD_rAUUU","y":"Eb2wH8Bn8xybxWo5SCSp2i-kH9QJm5Urx-FFHVcwUEs"}`,
-	"p384": `{"crv":"P-384","d":"kmHrmYMj97OmiKOFOIDH6u7DE4JCEalnK3UW5tABGmL2sMWNUlrgY2v_LbIp2SkA","kty":"EC","x":"Thlbf8HQLFlxs0CSOPDSkSHlK2Vm-jcKU9tqduvDPE34QdFLl_AWhr96L62ELHqi","y":"2qG8ZzSNdIU7hfGAUgSHmwjvbgDZb-e15PdZnNBMur3luj1GpjQPfeAtlmI-fpI8"}`,
-	"p521": `{"crv":"P-521","d":"Adggb7o-SdPSv-5Emxrr4rNN1lIR0sOdSMyCaub3fYYXO-GcT_IYEDFXSUaIuRjtlOc-iUc4XL1VFyvu7grS55lo","kty":"EC","x":"AJpGt0UUqxY6Ox21JKFkHyInDEKq2F0hwJ_ixsggIhPUDD14y7ii7s2FagHnMwYoW880sS8iTW8vb0SjW3bVBcXD","y":"ARhQd1zNOKwXWRmTq6pvTpECcvDzM4Ke3ibFnHgoZGvgzy4b0kP1Zsva870RYWwqLbmfNydWNNQYOl0t6I2sqiMD"}`,
-	"k256": `{"crv":"secp256k1","d":"iUBQ4lLxMIS80ckz7e-ZrUBILNcjw8u19Rfi1WDM9rM","kty":"EC","x":"3UvAf92C4p2PxvhS2cHxB2uBYfo-5o2_JKxgGxrpSGE","y":"CEIqkvSekd2w1uXvrI1FdFm2C_IcvLJDCWsWnNEzhIA"}`,
+	"p256":    `{"crv":"P-256","d":"pDwP5X3GKRa2n8hD1Sx9p9Bz65u5URkLeTsDvGegMEQ","kty":"EC","x":"murx86Ceqb0_itQoFbUif8DuiYGjj6Nie0DeD_rAUUU","y":"Eb2wH8Bn8xybxWo5SCSp2i-kH9QJm5Urx-FFHVcwUEs"}`,
+	"p384":    `{"crv":"P-384","d":"kmHrmYMj97OmiKOFOIDH6u7DE4JCEalnK3UW5tABGmL2sMWNUlrgY2v_LbIp2SkA","kty":"EC","x":"Thlbf8HQLFlxs0CSOPDSkSHlK2Vm-jcKU9tqduvDPE34QdFLl_AWhr96L62ELHqi","y":"2qG8ZzSNdIU7hfGAUgSHmwjvbgDZb-e15PdZnNBMur3luj1GpjQPfeAtlmI-fpI8"}`,
+	"p521":    `{"crv":"P-521","d":"Adggb7o-SdPSv-5Emxrr4rNN1lIR0sOdSMyCaub3fYYXO-GcT_IYEDFXSUaIuRjtlOc-iUc4XL1VFyvu7grS55lo","kty":"EC","x":"AJpGt0UUqxY6Ox21JKFkHyInDEKq2F0hwJ_ixsggIhPUDD14y7ii7s2FagHnMwYoW880sS8iTW8vb0SjW3bVBcXD","y":"ARhQd1zNOKwXWRmTq6pvTpECcvDzM4Ke3ibFnHgoZGvgzy4b0kP1Zsva870RYWwqLbmfNydWNNQYOl0t6I2sqiMD"}`,
+	"k256":    `{"crv":"secp256k1","d":"iUBQ4lLxMIS80ckz7e-ZrUBILNcjw8u19Rfi1WDM9rM","kty":"EC","x":"3UvAf92C4p2PxvhS2cHxB2uBYfo-5o2_JKxgGxrpSGE","y":"CEIqkvSekd2w1uXvrI1FdFm2C_IcvLJDCWsWnNEzhIA"}`,
 	"ed25519": `{"crv":"Ed25519","d":"BpsK821dX4LNzC2lt6dGATfi3aHH5vN9tSmy3pYHzIs","kty":"OKP","x":"_yEPMWW_esIimXhxBrO6pNjWKnF4VAHWLHnk8uEYpWE"}`,
-	"ed448": `{"crv":"Ed448","d":"EHw7lLy2gCYy3SW6_kOmyyEgYfP1EomoRY77XumItrftT4ARW-rsDanPrcySZ7yfqJ-uKFhqBsF9","kty":"OKP","x":"EEdYlSg6oIR5Y4H17Lt0hFOikkyNc17b1Oq6GuOSvuVpkKC6okmXMf0boulwopahm0Yvqp2rviEA"}`,
-	"x25519": `{"crv":"X25519","d":"rER5vhGi7WqvinjPXbGT8d2Ha2r00LBr7TFMWfoGEtc","kty":"OKP","x":"UDnQ-5Nqyesh5z5gjm-BQ_Nn90F1VfEC2zCEAVbhCk0"}`,
-	"x448": `{"crv":"X448","d":"vv7K0VXqlK1fvEtMow2YzZRDbSqAFJCzFFT74gDsnOp6bCjUCNuURPNIjXH1UqXBPXoZmEDoPOs","kty":"OKP","x":"gG4f6mmtbPvy3k5O8IvcnsApwP7JYpnepj06opNZLtB5EarnMQAHS_JuaHZIiE8EJSNCuze7bcM"}`,
-	"oct16":  `{"kty":"oct","k":"AAECAwQFBgcICQoLDA0ODw"}`,
-	"oct24":  `{"kty":"oct","k":"AAECAwQFBgcICQoLDA0ODxAREhMUFRYX"}`,
-	"oct32":  `{"kty":"oct","k":"AAECAwQFBgcICQoLDA0ODxAREhMUFRYXGBkaGxwdHh8"}`,
-	"oct48":  `{"kty":"oct","k":"AAECAwQFBgcICQoLDA0ODxAREhMUFRYXGBkaGxwdHh8gISIjJCUmJygpKissLS4v"}`,
-	"oct64":  `{"kty":"oct","k":"AAECAwQFBgcICQoLDA0ODxAREhMUFRYXGBkaGxwdHh8gISIjJCUmJygpKissLS4vMDEyMzQ1Njc4OTo7PD0-Pw"}`,
-	"oct0":   `{"kty":"oct","k":""}`,
-	"oct5":   `{"kty":"oct","k":"AAECAwQ"}`,
+	"ed448":   `{"crv":"Ed448","d":"EHw7lLy2gCYy3SW6_kOmyyEgYfP1EomoRY77XumItrftT4ARW-rsDanPrcySZ7yfqJ-uKFhqBsF9","kty":"OKP","x":"EEdYlSg6oIR5Y4H17Lt0hFOikkyNc17b1Oq6GuOSvuVpkKC6okmXMf0boulwopahm0Yvqp2rviEA"}`,
+	"x25519":  `{"crv":"X25519","d":"rER5vhGi7WqvinjPXbGT8d2Ha2r00LBr7TFMWfoGEtc","kty":"OKP","x":"UDnQ-5Nqyesh5z5gjm-BQ_Nn90F1VfEC2zCEAVbhCk0"}`,
+	"x448":    `{"crv":"X448","d":"vv7K0VXqlK1fvEtMow2YzZRDbSqAFJCzFFT74gDsnOp6bCjUCNuURPNIjXH1UqXBPXoZmEDoPOs","kty":"OKP","x":"gG4f6mmtbPvy3k5O8IvcnsApwP7JYpnepj06opNZLtB5EarnMQAHS_JuaHZIiE8EJSNCuze7bcM"}`,
+	"oct16":   `{"kty":"oct","k":"AAECAwQFBgcICQoLDA0ODw"}`,
+	"oct24":   `{"kty":"oct","k":"AAECAwQFBgcICQoLDA0ODxAREhMUFRYX"}`,
+	"oct32":   `{"kty":"oct","k":"AAECAwQFBgcICQoLDA0ODxAREhMUFRYXGBkaGxwdHh8"}`,
+	"oct48":   `{"kty":"oct","k":"AAECAwQFBgcICQoLDA0ODxAREhMUFRYXGBkaGxwdHh8gISIjJCUmJygpKissLS4v"}`,
+	"oct64":   `{"kty":"oct","k":"AAECAwQFBgcICQoLDA0ODxAREhMUFRYXGBkaGxwdHh8gISIjJCUmJygpKissLS4vMDEyMzQ1Njc4OTo7PD0-Pw"}`,
+	"oct0":    `{"kty":"oct","k":""}`,
+	"oct5":    `{"kty":"oct","k":"AAECAwQ"}`,
 }
 
 var c07PEMs = []string{
